@@ -105,7 +105,10 @@ type Gen struct {
 
 	noRefine    bool
 	retReach    []string
+	smokePts    []smokePt
 	verAlloc    map[string]string // heap version constant -> allocation counter when it was introduced
+	versions    map[string][]heapVersion
+	heapKind    map[string]string
 	tagAlloc    map[string]string
 	ownModsDone bool
 	ownModsV    []modLoc
@@ -148,7 +151,14 @@ func (g *Gen) define(prefix, sort, term string) string {
 		return term
 	}
 	n := q(g.fresh(prefix))
-	g.emit(fmt.Sprintf("(define-fun %s () %s %s)", n, sort, term))
+	if sort == "Bool" {
+		g.emit(fmt.Sprintf("(define-fun %s () %s %s)", n, sort, term))
+		return n
+	}
+	// values are named constants (not macros) so that terms stay syntactically
+	// small and E-matching patterns over them keep working
+	g.emit(fmt.Sprintf("(declare-const %s %s)", n, sort))
+	g.emit(fmt.Sprintf("(assert (= %s %s))", n, term))
 	return n
 }
 
@@ -332,11 +342,66 @@ func (g *Gen) heap(st *State, name, sort string) string {
 	}
 	c := g.declConst(name+"@"+tag, g.heapSort[name])
 	if tag == "0" {
-		g.verAlloc[c] = g.entry.alloc
+		g.setVerAlloc(name, c, g.entry.alloc)
 	} else if a, ok := g.tagAlloc[tag]; ok {
-		g.verAlloc[c] = a
+		g.setVerAlloc(name, c, a)
 	}
 	return c
+}
+
+type heapVersion struct{ c, alloc string }
+
+type smokePt struct{ name, reach string }
+
+// setVerAlloc records that heap version constant c was introduced when the
+// allocation counter was alloc, and states the allocation invariant of that
+// version: every reference stored in it was allocated by then.
+func (g *Gen) setVerAlloc(name, c, alloc string) {
+	if _, done := g.verAlloc[c]; done {
+		return
+	}
+	g.verAlloc[c] = alloc
+	g.versions[name] = append(g.versions[name], heapVersion{c, alloc})
+	if k, ok := g.heapKind[name]; ok {
+		g.emitAllocInv(name, k, heapVersion{c, alloc})
+	}
+}
+
+func (g *Gen) emitAllocInv(name, kind string, v heapVersion) {
+	two := strings.HasPrefix(g.heapSort[name], "(Array Int (Array Int ")
+	sel := "(select " + v.c + " r)"
+	vars := "((r Int))"
+	if two {
+		sel = "(select (select " + v.c + " r) i)"
+		vars = "((r Int) (i Int))"
+	}
+	switch kind {
+	case "ref":
+		g.emit(fmt.Sprintf("(assert (forall %s (! (and (<= 0 %s) (<= %s %s)) :pattern (%s))))", vars, sel, sel, v.alloc, sel))
+	case "slice":
+		g.emit(fmt.Sprintf("(assert (forall %s (! (and (<= 0 (s-arr %s)) (<= (s-arr %s) %s)) :pattern (%s))))", vars, sel, sel, v.alloc, sel))
+	}
+}
+
+// noteHeapKind learns from a typed location whether a heap holds references.
+func (g *Gen) noteHeapKind(l *Loc) {
+	if l.G == nil || l.Kind == LSub {
+		return
+	}
+	if _, ok := g.heapKind[l.Heap]; ok {
+		return
+	}
+	kind := ""
+	switch l.G.Underlying().(type) {
+	case *types.Pointer, *types.Map, *types.Chan, *types.Signature:
+		kind = "ref"
+	}
+	g.heapKind[l.Heap] = kind
+	if kind != "" {
+		for _, v := range g.versions[l.Heap] {
+			g.emitAllocInv(l.Heap, kind, v)
+		}
+	}
 }
 
 func (g *Gen) setHeap(st *State, name, sort, term string) {
@@ -384,6 +449,7 @@ func (g *Gen) loadLoc(st *State, l *Loc) Val {
 		return Val{T: sx("select", pv.T, l.Idx), S: l.S, G: l.G}
 	}
 	h := g.heap(st, l.Heap, g.heapSortOfLoc(l))
+	g.noteHeapKind(l)
 	var t string
 	if l.Kind == LElem {
 		t = sx("select", sx("select", h, l.Base), l.Idx)
@@ -661,6 +727,9 @@ func loopPos(h *ssa.BasicBlock) token.Pos {
 		for _, in := range b.Instrs {
 			if _, ok := in.(*ssa.DebugRef); ok {
 				continue
+			}
+			if _, ok := in.(*ssa.Phi); ok {
+				continue // a phi carries the position of the variable's declaration
 			}
 			if p := in.Pos(); p.IsValid() && p < best {
 				best = p
